@@ -199,7 +199,7 @@ class GaussianMerge(Compiler):
 
                     # Add edges to all successor operations not merged
                     self.add_non_gaussian_successor_gates(
-                        gaussian_transform, successors, displacement_mapping
+                        gaussian_transform, successors, displacement_mapping, merged_gaussian_ops
                     )
 
                     # Add edges for all successor/predecessor operations of the merged operations
@@ -228,14 +228,15 @@ class GaussianMerge(Compiler):
         return d_gates
 
     def add_non_gaussian_successor_gates(
-        self, gaussian_transform, successors, displacement_mapping
+        self, gaussian_transform, successors, displacement_mapping, merged_gaussian_ops=()
     ):
         """
-        Updates the DAG by adding edges between new gaussian transform and non-gaussian operations
-        from original operations.
+        Updates the DAG by adding edges between new gaussian transform and the successors of the
+        original operation that are not merged (non-gaussian operations, and gaussian operations
+        that had to be left out of the merge).
         """
         for successor_op in successors:
-            if get_op_name(successor_op) not in self.gaussian_ops:
+            if successor_op not in merged_gaussian_ops:
                 # If there are no displacement gates.
                 # Add edges from it to successor gates if they act upon the same qumodes
                 if not displacement_mapping:
